@@ -740,7 +740,11 @@ func c13Run(c *mc.Ctx) {
 	c.Stat("lex_cases_with_unique_reading_asserted", asserted)
 
 	// ---- part 2: round trip of every text <= rtL (+ scalar boundaries)
-	alpha := append(append([]rune{}, c13Alpha...), 0, 0x7F, 0x80, 0x7FF, 0x800, 0xFFFF, 0x10000, 0x10FFFF, '\t')
+	alpha := append(append([]rune{}, c13Alpha...), 0, 0x7F, 0x80, 0x7FF, 0x800, 0xFFFF, 0x10000, 0x10FFFF, '\t',
+		// characters without a glyph of their own, or that software likes to "normalise" away:
+		// variation selectors, zero-width space / joiner, direction marks, soft hyphen, U+FEFF inside
+		// a text, a combining accent, the replacement character, other line / space separators
+		0xFE0F, 0xE0100, 0x200B, 0x200D, 0x200E, 0x202E, 0xAD, 0xFEFF, 0x34F, 0x2060, 0x301, 0xFFFD, 0x85, 0x2028, 0x3000, 0xA0)
 	for n := 0; n <= rtL; n++ {
 		al := alpha
 		if n >= 4 {
